@@ -154,7 +154,7 @@ Proof.
 Qed.
 Theorem lc_active_no_owner now r ct : st_of r = Some LActive \/ r = None ->
   row_step now r (TryResume ct) = (r, RNone).
-Proof. intros [H|->]; [|reflexivity]. destruct r as [[[| |] u]|]; cbn in *; try discriminate; reflexivity. Qed.
+Proof. intros [H| -> ]; [|reflexivity]. destruct r as [[[| |] u]|]; cbn in *; try discriminate; reflexivity. Qed.
 
 (* ---------- the crash timeout ---------- *)
 Theorem lc_live_releaser_not_preempted now u ct :
